@@ -183,6 +183,9 @@ class RTDCBase(abc.ABC):
             if length:
                 return length
         else:
+            if keys:
+                # all features are empty
+                return 0
             raise ValueError(f"Could not determine size of dataset '{self}'.")
 
     def __repr__(self):
